@@ -898,9 +898,12 @@ fn gen_file(rng: &mut Rng) -> Vec<Item> {
 /// re-used si, missing si, malformed `ref`
 fn gen_odd_file(rng: &mut Rng) -> Vec<Item> {
     let mut items = gen_file(rng);
+    // stay inside the window of the sheet (dense `Range` allocation, ledger D37)
+    let r0 = items.iter().map(|i| i.pos().0).min().unwrap_or(0).min(1_048_500);
+    let c0 = items.iter().map(|i| i.pos().1).min().unwrap_or(0).min(16_340);
     let pos_free = |items: &[Item], rng: &mut Rng| -> (u32, u32) {
         loop {
-            let p = (rng.below(60) as u32, rng.below(30) as u32);
+            let p = (r0 + rng.below(60) as u32, c0 + rng.below(30) as u32);
             if items.iter().all(|i| i.pos() != p) {
                 return p;
             }
@@ -963,6 +966,11 @@ fn corpus_unit() -> Vec<(Vec<Tok>, i64, i64)> {
         // D13: non-ASCII text made the whole translation fail
         (vec![rf(false, 0, false, 0), p('&'), Tok::Str("é".into())], 1, 0),
         (vec![Tok::Ident("données".into()), p('+'), rf(false, 0, false, 0)], 0, 1),
+        // D13: a run was split in the middle (`R1C1` → cell `C1`), and the shifted row -1 wrapped / panicked
+        (vec![Tok::Ident("R1C1".into())], -1, 8718),
+        // D13: a pending numeral was emitted after the string literal that follows it (`1" "` → `" 1"`)
+        (vec![Tok::Num("1".into()), Tok::Str(" ".into())], 0, 12),
+        (vec![Tok::Sheet("A1".into(), false), rf(false, 27, false, 0)], 0, 16),
         // the pinned unit test of the repository
         (vec![rf(false, 0, false, 0)], 1, 0),
         (vec![Tok::Ident("XFE123".into()), p(' '), Tok::Str("A3".into()), p(' '), rf(false, 2, false, 106)], 1, 0),
@@ -1188,6 +1196,19 @@ fn raw_case(s: &str, dr: i64, dc: i64, drv: &mut Driver, rep: &mut Report) {
 }
 
 fn file_case(items: &[Item], layout_seed: u64, class: &str, drv: &mut Driver, rep: &mut Report, shrunk: &mut u32) {
+    // never build a sheet whose bounding box exceeds 2^21 cells (dense `Range` allocation, ledger D37)
+    let (mut r0, mut c0, mut r1, mut c1) = (u32::MAX, u32::MAX, 0u32, 0u32);
+    for it in items {
+        let (r, c) = it.pos();
+        r0 = r0.min(r);
+        c0 = c0.min(c);
+        r1 = r1.max(r);
+        c1 = c1.max(c);
+    }
+    if !items.is_empty() && (r1 - r0 + 1) as u64 * (c1 - c0 + 1) as u64 > (1 << 21) {
+        rep.count("file.skipped_bbox_too_large");
+        return;
+    }
     let out = run_file(items, layout_seed, drv);
     let input = format!("F:{}:{}", layout_seed, items_wire(items));
     let members = items.iter().filter(|i| matches!(i, Item::Child { .. })).count();
